@@ -113,17 +113,17 @@ type posInfo struct {
 }
 
 type world struct {
-	be       backend
-	start    uint16
-	cursor   int64 // next fresh source position
-	highest  int64 // highest delivered position, -1 if none
-	info     map[int64]*posInfo
-	withheld []int64          // sorted positions withheld
-	outs     map[uint16]int64 // outgoing number -> source position (recent)
-	nops     int
-	macro    bool
-	outcome  string
-	lateHi   bool
+	be        backend
+	start     uint16
+	cursor    int64 // next fresh source position
+	highest   int64 // highest delivered position, -1 if none
+	info      map[int64]*posInfo
+	withheld  []int64          // sorted positions withheld
+	outs      map[uint16]int64 // outgoing number -> source position (recent)
+	nops      int
+	macro     bool
+	outcome   string
+	lateHi    bool
 	lastMacro bool
 	long      bool
 	firstSeq  uint16
@@ -167,11 +167,19 @@ func (w *world) Ops() []seqx.Op {
 	for j := range w.recent() {
 		ops = append(ops, op{Kind: "dup", N: j})
 	}
-	if w.macro && w.nops < 2 {
+	if w.macro && w.nops == 0 {
 		for _, n := range []int{120, 8190, 8192, 32767, 65530} {
 			ops = append(ops, op{Kind: "burst", N: n})
 		}
 		ops = append(ops, op{Kind: "alt", N: 130})
+		// sparse drops over more than 2^16 packets: the interval table still
+		// holds entries that are a full seqno cycle old
+		ops = append(ops, op{Kind: "sparse", N: 8000, Tid: 9}, op{Kind: "sparse", N: 1000, Tid: 66}, op{Kind: "sparse", N: 600, Tid: 110})
+	}
+	if w.macro && w.nops == 1 {
+		for _, n := range []int{8192, 65530} {
+			ops = append(ops, op{Kind: "burst", N: n})
+		}
 	}
 	return ops
 }
@@ -277,7 +285,7 @@ func (w *world) Apply(o seqx.Op) *core.Violation {
 func (w *world) apply(o seqx.Op) *core.Violation {
 	x := o.(op)
 	w.nops++
-	w.lastMacro = x.Kind == "burst" || x.Kind == "alt"
+	w.lastMacro = x.Kind == "burst" || x.Kind == "alt" || x.Kind == "sparse"
 	switch x.Kind {
 	case "fwd", "hi":
 		p := w.cursor
@@ -314,6 +322,23 @@ func (w *world) apply(o seqx.Op) *core.Violation {
 			}
 		}
 		w.gc()
+	case "sparse":
+		// Tid repetitions of: N forwarded packets, one withheld
+		w.long = true
+		for r := 0; r < x.Tid; r++ {
+			for i := 0; i <= x.N; i++ {
+				p := w.cursor
+				w.cursor++
+				tid := 0
+				if i == x.N {
+					tid = 1
+				}
+				if v := w.deliver(p, tid); v != nil {
+					return v
+				}
+			}
+			w.gc()
+		}
 	case "alt":
 		for i := 0; i < x.N; i++ {
 			for _, tid := range []int{0, 1} {
@@ -381,7 +406,7 @@ func (w *world) Clone() seqx.World {
 
 // Checkpoint: states reached by a macro operation are expensive to replay.
 func (w *world) Checkpoint() bool { return w.lastMacro }
-func (w *world) Close()          { w.be.close() }
+func (w *world) Close()           { w.be.close() }
 
 func freshWorld(start uint16, track, macro bool) func() seqx.World {
 	return func() seqx.World {
@@ -466,6 +491,9 @@ func main() {
 	agg := map[string]*core.Sub{}
 	for _, k := range kinds {
 		for _, s := range ss {
+			if core.Quick() && strings.HasSuffix(k, "macro") && s != 1 && s != 8191 && s != 57344 && s != 65535 {
+				continue
+			}
 			i++
 			if i%o.Shards != o.Shard || !core.Want(k) {
 				continue
